@@ -255,6 +255,13 @@ def run(ctx):
                 wn = C.stmt_node(ctx, fn, wc)
                 if g.dominates(wn, rn):
                     complete, closed, enc_ok = wc, wc, True
+            if w.prim.endswith("write_bytes") and isinstance(wc.func, ast.Attribute) and wc.args and flow.term(wc.func.value, fn) == src_t:
+                # Path.write_bytes(data): opens, writes everything, closes
+                wn = C.stmt_node(ctx, fn, wc)
+                data = flow.term(wc.args[0], fn)
+                if g.dominates(wn, rn) and not C.in_loop(ctx, fn, wc) and _derives_from(data, "pyben.dumps") and all(t[0] in ("ext", "rec") for t in data):
+                    complete, closed = wc, wc
+                    enc_ok = all(g.dominates(wn, C.stmt_node(ctx, fn, x.site)) or x.site is wc for x in writes_by_fn.get(fn, []))
             obj_call = None
             if w.prim in ("builtins.open", "io.open") and wc.args and flow.term(wc.args[0], fn) == src_t:
                 obj_call = wc
